@@ -9,7 +9,7 @@
    in which transport parameters never lower a flow-control value the connection already holds
    ([pguard], RFC 9000 7.4.1).  [gm sid] is the largest MAX_STREAM_DATA value received for the stream. *)
 From Coq Require Import ZArith List Bool.
-From AQ Require Import lib.Base model.RangeSet model.StreamSend model.FlowSend proofs.StreamSendP proofs.FlowSendP.
+From AQ Require Import lib.Base model.RangeSet model.StreamSend model.FlowSend proofs.StreamSendP proofs.FlowSendP proofs.FlowSendP2.
 
 (* at every moment highest_offset(s) <= max_stream_data_remote(s), and that limit is covered by what the
    peer sent: the transport parameter for the stream's kind, or a MAX_STREAM_DATA frame for the stream *)
@@ -112,3 +112,54 @@ Theorem unblocked_progress_partial : forall c sid ms t start rstop rest,
   exists data fin c', fstep c (OGet sid ms) = (FGet (max_offset c t) (SFrame start data fin), c').
 Proof. exact unblocked_progress_l. Qed.
 Print Assumptions unblocked_progress_partial.
+
+(* the credit counter IS the sum of the highest offsets, after EVERY operation sequence from a fresh connection:
+   no parameter guard, no assumption on the delivery outcomes, any interleaving of losses, writes between a loss
+   and the next send, re-cuts with any size budget, MAX_DATA / MAX_STREAM_DATA in any order.  (This is the
+   statement the tie compares `_remote_max_data_used` against before every _write_stream_frame call.) *)
+Theorem credit_is_sum_of_highest : forall cl ops,
+  c_used (frun (conn_init cl) ops) = sum_high (c_streams (frun (conn_init cl) ops)).
+Proof. exact credit_is_sum_of_highest_l. Qed.
+Print Assumptions credit_is_sum_of_highest.
+
+(* one _write_stream_frame call in ANY state: the charge is the rise of that stream's highest_offset, never
+   negative, and no other stream is touched *)
+Theorem write_stream_frame_charge : forall c sid ms t,
+  find_strm sid (c_streams c) = Some t ->
+  let c' := snd (fstep c (OGet sid ms)) in
+  exists t', find_strm sid (c_streams c') = Some t' /\
+    c_used c' - c_used c = s_highest (t_send t') - s_highest (t_send t) /\ 0 <= c_used c' - c_used c /\
+    forall sid', sid' <> sid -> find_strm sid' (c_streams c') = find_strm sid' (c_streams c).
+Proof. exact get_charge_l. Qed.
+Print Assumptions write_stream_frame_charge.
+
+(* a STREAM frame that STRADDLES the previous highest offset (it starts inside bytes already sent -- a lost range
+   that the pending RangeSet merged with fresh bytes, or a re-cut with a different budget -- and ends above it) is
+   charged exactly its part above the old highest offset: more than nothing, less than its length; the sum
+   invariant and the connection limit hold afterwards and the frame ends within max_offset *)
+Theorem straddling_frame_charged_exactly : forall c gm sid ms mo off data fin c' t g,
+  freach c gm -> find_strm sid (c_streams c) = Some t -> reach (t_send t) g ->
+  fstep c (OGet sid ms) = (FGet mo (SFrame off data fin), c') ->
+  off < s_highest (t_send t) < off + Zlen data ->
+  c_used c' = c_used c + (off + Zlen data - s_highest (t_send t)) /\
+  0 < c_used c' - c_used c < Zlen data /\
+  sum_high (c_streams c') = c_used c' /\ c_used c' <= c_max_data c' /\
+  off + Zlen data <= mo.
+Proof. exact straddling_frame_charged_l. Qed.
+Print Assumptions straddling_frame_charged_exactly.
+
+(* such frames exist (hypotheses above are satisfiable): MAX_DATA 200; stream 0 sends [0,40), the packet is lost, 40
+   more bytes are written before the retransmission is cut -> pending [0,80) around highest_offset 40; the frame
+   [0,80) is charged 40 (used 40 -> 80), so stream 4 (150 bytes queued) stops at 120: 80 + 120 = 200 = MAX_DATA *)
+Theorem straddling_frame_witness :
+  let c := frun (conn_init true) ops_straddle_pre in
+  guards (conn_init true) ops_straddle /\
+  (exists t, find_strm 0 (c_streams c) = Some t /\ s_highest (t_send t) = 40 /\ s_pending (t_send t) = (0, 80) :: nil /\
+             reach (t_send t) (snd (srun (send_init true) ghost_init sops_straddle))) /\
+  c_used c = 40 /\
+  (exists c1, fstep c (OGet 0 1000) = (FGet 200 (SFrame 0 (zeros 80) false), c1) /\ c_used c1 = 80) /\
+  let c2 := frun (conn_init true) ops_straddle in
+  c_used c2 = 200 /\ c_max_data c2 = 200 /\
+  map (fun t => (t_id t, s_highest (t_send t))) (c_streams c2) = (0, 80) :: (4, 120) :: nil.
+Proof. exact straddle_witness_l. Qed.
+Print Assumptions straddling_frame_witness.
